@@ -176,8 +176,13 @@ func C08(cfg Cfg) int {
 						res, sigs = env.SignAtts(via, cs)
 					} else {
 						cs := make([]*GenCase, n)
+						shared := n > 1 && r.Intn(3) == 0
 						for i := range cs {
 							cs[i] = wfGen(r, env, i)
+							if shared && i > 0 && r.Intn(2) == 0 {
+								// The same message under another domain (and another key) elsewhere in the request.
+								cs[i].Data.Data = append([]byte{}, cs[r.Intn(i)].Data.Data...)
+							}
 							roots[i] = cs[i].SigningRoot()
 							descs[i] = fmt.Sprintf("generic key%d dom=%x", cs[i].Key.Index, cs[i].Data.Domain[:4])
 						}
